@@ -486,9 +486,24 @@ def arena_run(tier, seed, extra_tag=""):
     return engine_run("arena", ARENA_TIERS, run_shard, "C09", tier, seed, extra_tag)
 
 
+def prune_traces(keep=12):
+    """traces are only needed until the replay files are written: keep the newest few runs"""
+    try:
+        ds = sorted((os.path.join(TRACES, d) for d in os.listdir(TRACES)), key=os.path.getmtime, reverse=True)
+        for d in ds[keep:]:
+            subprocess.run(["rm", "-rf", d])
+        cs = sorted((os.path.join(CACHE, d) for d in os.listdir(CACHE)), key=os.path.getmtime, reverse=True)
+        for c in cs[200:]:
+            os.unlink(c)
+    except OSError:
+        pass
+
+
 def engine_run(name, tiers, shard_fn, crash_prop, tier, seed, extra_tag=""):
     """run (or fetch from the cache) one engine's correspondence for this tree"""
     os.makedirs(CACHE, exist_ok=True)
+    os.makedirs(TRACES, exist_ok=True)
+    prune_traces()
     key = "%s_%s_%s_%d%s" % (repo_hash(), verif_hash(), tier, seed, extra_tag)
     cpath = os.path.join(CACHE, "%s_%s.json" % (name, key))
     if os.path.exists(cpath) and not os.environ.get("BV_NOCACHE"):
